@@ -280,10 +280,9 @@ impl_binary_unsigned_integer!(
     (u128, [u8; 16])
 );
 
-// 2f32.powi(23 + 1).log10().ceil() + 1f32
-const F32_MAX_MANTISSA_DIGITS: usize = 9;
-const F32_MAX_EXPONENT_DIGITS: usize = 3;
-const F32_BUF_SIZE: usize = F32_MAX_MANTISSA_DIGITS + F32_MAX_EXPONENT_DIGITS + 4;
+// Decimals converted to `f32` can carry just as many digits and just as large
+// an exponent as those converted to `f64`, so the same buffer size is used for both
+const F32_BUF_SIZE: usize = F64_BUF_SIZE;
 
 // The payload for a NaN is the significand bits, except for the most significant,
 // which is used to identify signaling vs quiet NaNs
